@@ -58,11 +58,19 @@ def ensure_makefile():
         run(["coq_makefile", "-f", "_CoqProject", "-o", "Makefile"], cwd=COQ)
 
 
+def props_files(prop):
+    """Props/<prop>.v plus the files named by the property's 'extra_props' configuration."""
+    import props
+    return [prop] + list(props.PROPS.get(prop, {}).get("extra_props", []))
+
+
 def theorem_names(prop):
-    path = os.path.join(THEORIES, "Props", prop + ".v")
-    if not os.path.exists(path):
-        return []
-    return re.findall(r"^\s*Theorem\s+([A-Za-z0-9_']+)", open(path).read(), re.M)
+    names = []
+    for f in props_files(prop):
+        path = os.path.join(THEORIES, "Props", f + ".v")
+        if os.path.exists(path):
+            names += re.findall(r"^\s*Theorem\s+([A-Za-z0-9_']+)", open(path).read(), re.M)
+    return names
 
 
 def grep_forbidden():
@@ -86,7 +94,7 @@ def build_proofs(prop):
         return res
     with Lock("coq"):
         ensure_makefile()
-        rc, out = run(["timeout", "1500", "make", "-j16", "theories/Props/%s.vo" % prop], cwd=COQ, timeout=1600)
+        rc, out = run(["timeout", "1500", "make", "-j16"] + ["theories/Props/%s.vo" % f for f in props_files(prop)], cwd=COQ, timeout=1600)
     res["make_log"] = out[-4000:]
     if rc != 0:
         m = re.findall(r'File "([^"]+)", line (\d+)', out)
@@ -100,7 +108,8 @@ def build_proofs(prop):
     os.makedirs(wd, exist_ok=True)
     av = os.path.join(wd, "assum.v")
     with open(av, "w") as f:
-        f.write("From TSG Require Import Props.%s.\n" % prop)
+        for pf in props_files(prop):
+            f.write("From TSG Require Import Props.%s.\n" % pf)
         for n in names:
             f.write('Goal True. idtac "@@THM %s". exact I. Qed.\nPrint Assumptions %s.\n' % (n, n))
     rc, out = run(["timeout", "600", "coqc", "-noglob", "-Q", THEORIES, "TSG", av], cwd=wd, timeout=700)
